@@ -34,6 +34,7 @@ import (
 func init() {
 	execs["c09.trace"] = execC09
 	execs["c09.overlap"] = func(t *hx.Toks) string { return execC09x(t, true) }
+	execs["c09.stop"] = ExecC09StopInBackoff
 	gens["C09"] = genC09
 }
 
@@ -68,6 +69,12 @@ type c09Rig struct {
 	park       chan parkReq
 	okCh       chan int64
 	outDone    chan int64
+	stopMode   int // 1: Stop when batch 0 gets its pause number stopAt; 2: Stop while its attempt stopAt is parked
+	stopAt     int
+	stopGo     chan struct{} // closed (once) to make the stopper call Router.Stop
+	stopOnce   sync.Once
+	xLogged    chan struct{} // closed when the main batcher's Stop has been traced
+	xOnce      sync.Once
 	giveUpWait chan struct{}
 }
 
@@ -136,6 +143,9 @@ func (r *c09Rig) trace(kind string, a, b uint64) {
 			pause = b // the pause NextBackOff asked for, in ns
 		}
 		r.log.add(&tEntry{tok: "n", extra: fmt.Sprintf("%d %d %s %d", seq, a, stop, pause)})
+		if r.stopMode == 1 && seq == 0 && int(a) == r.stopAt && stop == "0" {
+			r.stopOnce.Do(func() { close(r.stopGo) }) // the worker is about to wait out this pause
+		}
 		if stop == "0" && time.Duration(b) > 10*time.Second {
 			// the case cannot sit through this pause: the observation ends here
 			r.mu.Lock()
@@ -186,6 +196,9 @@ func (r *c09Rig) trace(kind string, a, b uint64) {
 		r.mu.Unlock()
 	case "b.stop":
 		r.log.add(&tEntry{tok: up(tag, "x")})
+		if tag == "m" && r.xLogged != nil {
+			r.xOnce.Do(func() { close(r.xLogged) })
+		}
 	}
 }
 
@@ -321,6 +334,14 @@ func (p *c09Main) send(_ *pipeline.WorkerData, batch *pipeline.Batch) error {
 		r.log.mu.Unlock()
 	}
 	p.pause()
+	if r.stopMode == 2 && seq == 0 && n == r.stopAt {
+		// between two attempts: Stop closes the batcher while this retry is parked, then the retry goes on
+		r.stopOnce.Do(func() { close(r.stopGo) })
+		select {
+		case <-r.xLogged:
+		case <-time.After(500 * time.Millisecond):
+		}
+	}
 	if r.overlap && fails >= 99 && n >= 1 {
 		// the pause of retry n is over: hold the retry until the scheduler has let a later batch run its Out
 		req := parkReq{seq: seq, attempt: n, done: make(chan struct{})}
@@ -414,9 +435,35 @@ func (p *c09DQ) Out(ev *pipeline.Event) {
 
 func execC09(t *hx.Toks) string { return execC09x(t, false) }
 
-func execC09x(t *hx.Toks, overlap bool) string {
+func execC09x(t *hx.Toks, overlap bool) string { return execC09core(t, overlap, false) }
+
+// ExecC09StopInBackoff runs a case of the "Stop during a retry sequence" family. It does not look at the
+// command token (the family can be registered under another property's prefix, e.g. `c01.retry`):
+//
+//	<cmd> <workers> <count> <bytes> <retry> <retentionMs> <dqmode> <dqworkers> <dqcount> <stopmode> <seed>
+//	      <nev> (<size> <kind>)*nev <nscript> (<fails>)*nscript
+//
+// Same layout as c09.trace with `stopmode` in the place of `adders` (one adder):
+//
+//	1  RetriableBatcher.Stop (through Router.Stop) is called when batch 0 has just been told its pause by
+//	   NextBackOff (numTries = seed mod (retry+1)): Stop lands inside the back-off wait
+//	2  Stop is called while batch 0's retry number 1 + seed mod (retry+1) is parked in the send function
+//	   (between two attempts), the retry goes on once Stop has closed the batcher
+//	0  control: no early Stop
+//
+// The trace vocabulary is c09.trace's (`x` = the main batcher's Stop); no `w` is logged after an early Stop.
+func ExecC09StopInBackoff(t *hx.Toks) string { return execC09core(t, false, true) }
+
+func execC09core(t *hx.Toks, overlap bool, stopFamily bool) string {
 	workers, count, nbytes, retry, retentionMs := t.Int(), t.Int(), t.Int(), t.Int(), t.Int()
 	dqmode, dqworkers, dqcount, adders := t.Int(), t.Int(), t.Int(), t.Int()
+	stopMode := 0
+	if stopFamily {
+		stopMode, adders = adders, 1
+		if stopMode < 0 || stopMode > 2 || retry < 0 {
+			return "bad-case"
+		}
+	}
 	seed := t.Uint64()
 	n := t.Int()
 	if t.Err != nil || n < 0 || n > 10000 {
@@ -452,7 +499,13 @@ func execC09x(t *hx.Toks, overlap bool) string {
 	log := newTLog()
 	rig := &c09Rig{log: log, evs: evs, curSeq: map[uint64]int64{}, curCB: map[uint64]*tEntry{}, attempt: map[int64]int{},
 		batches: map[int64]*pipeline.Batch{}, started: map[int64]bool{}, script: script, giveUpWait: make(chan struct{}),
-		overlap: overlap, park: make(chan parkReq), okCh: make(chan int64, 64), outDone: make(chan int64, 64)}
+		overlap: overlap, park: make(chan parkReq), okCh: make(chan int64, 64), outDone: make(chan int64, 64),
+		stopMode: stopMode, stopGo: make(chan struct{}), xLogged: make(chan struct{})}
+	if stopMode == 1 {
+		rig.stopAt = int(seed % uint64(retry+1))
+	} else if stopMode == 2 {
+		rig.stopAt = 1 + int(seed%uint64(retry+1))
+	}
 	mctl := metric.NewCtl("", prometheus.NewRegistry(), time.Minute, 0)
 	mainP := &c09Main{rig: rig,
 		opts: pipeline.BatcherOptions{PipelineName: "verif", OutputType: "c09main", Workers: workers, BatchSizeCount: count,
@@ -485,6 +538,17 @@ func execC09x(t *hx.Toks, overlap bool) string {
 		PluginDefaultParams: pipeline.PluginDefaultParams{PipelineName: "verif", MetricCtl: mctl},
 		Controller:          rig, Router: router})
 
+	earlyStop := make(chan struct{})
+	if stopMode != 0 {
+		go func() {
+			select {
+			case <-rig.stopGo:
+				router.Stop() // main output: RetriableBatcher.Stop; then the dead queue
+				close(earlyStop)
+			case <-time.After(60 * time.Second):
+			}
+		}()
+	}
 	var wg sync.WaitGroup
 	if overlap {
 		// c09.overlap: batch 0 (count 1: one event per batch) keeps failing; each time one of its retries (attempt >= 2
@@ -579,7 +643,22 @@ func execC09x(t *hx.Toks, overlap bool) string {
 		log.add(&tEntry{tok: "panic:stuck"})
 		abandoned = true
 	}
-	if !abandoned {
+	earlyStopped := false
+	if !abandoned && stopMode != 0 {
+		select {
+		case <-rig.stopGo: // the early Stop was issued: it returns when every worker is through
+			earlyStopped = true
+			select {
+			case <-earlyStop:
+			case <-rig.giveUpWait:
+				abandoned = true
+			case <-time.After(60 * time.Second):
+				log.add(&tEntry{tok: "panic:stuck"})
+			}
+		default:
+		}
+	}
+	if !abandoned && !earlyStopped {
 		// wait until every sealed main batch is resolved and the dead queue has drained; the tail of
 		// the dead-queue batcher is flushed by its heartbeat: bound in heartbeat ticks (as in C08)
 		countTok := func(tok string) int {
@@ -631,6 +710,23 @@ func execC09x(t *hx.Toks, overlap bool) string {
 			if abandoned {
 				break
 			}
+			if stopMode != 0 {
+				select {
+				case <-rig.stopGo: // the early Stop came while we were waiting: no drain claim after it
+					earlyStopped = true
+					select {
+					case <-earlyStop:
+					case <-rig.giveUpWait:
+						abandoned = true
+					case <-time.After(60 * time.Second):
+						log.add(&tEntry{tok: "panic:stuck"})
+					}
+				default:
+				}
+				if earlyStopped {
+					break
+				}
+			}
 			if resolved() {
 				ok = true
 				break
@@ -645,7 +741,7 @@ func execC09x(t *hx.Toks, overlap bool) string {
 			}
 			time.Sleep(500 * time.Microsecond)
 		}
-		if !abandoned {
+		if !abandoned && !earlyStopped {
 			w := "0"
 			if ok {
 				w = "1"
@@ -688,6 +784,40 @@ func c09Line2(w *bufio.Writer, cmd string, workers, count, nbytes, retry, retent
 		fmt.Fprintf(w, " %d", f)
 	}
 	w.WriteByte('\n')
+}
+
+// genC09StopInBackoff writes the "Stop during a retry sequence" family under the given command token (exec:
+// ExecC09StopInBackoff, Lean: DrvC09.handleTrace — neither looks at the token).
+func genC09StopInBackoff(w *bufio.Writer, rng *hx.Rng, tier string, cmd string) {
+	n := 18
+	if tier == "thorough" {
+		n = 180
+	}
+	for i := 0; i < n; i++ {
+		stopMode := 1 + i%2
+		if i%9 == 8 {
+			stopMode = 0 // control
+		}
+		// at least one Batch object stays free (events < workers): otherwise the heartbeat blocks in getBatch
+		// holding b.mu and Stop cannot get in before the retry sequence is over
+		workers := 2 + i%3
+		retry := i % 3
+		dqmode := (i / 2) % 3
+		// pauses of 10 ms and more: a Stop issued when the pause is announced lands inside the wait
+		retentionMs := 20
+		script := []int{99, 0}
+		switch i % 5 {
+		case 3:
+			script = []int{retry + 1, 0} // recovers at its last allowed attempt
+		case 4:
+			script = []int{99, 99}
+		}
+		evs := make([]evSpec, 1+i%(workers-1))
+		for j := range evs {
+			evs[j] = evSpec{size: rng.Range(0, 30)}
+		}
+		c09Line2(w, cmd, workers, 1, 0, retry, retentionMs, dqmode, 1, 1, stopMode, rng.U64(), evs, script)
+	}
 }
 
 func genC09(w *bufio.Writer, rng *hx.Rng, tier string) {
@@ -737,6 +867,7 @@ func genC09(w *bufio.Writer, rng *hx.Rng, tier string) {
 		}
 		w.WriteByte('\n')
 	}
+	genC09StopInBackoff(w, rng, tier, "c09.stop")
 	// deterministic overlap of a retry sequence with later batches on other workers, and two batches failing at once
 	nover := 12
 	if tier == "thorough" {
